@@ -99,7 +99,7 @@ package interceptor
 // Under the statement's premise (renamed keys do not collide with each other or with kept keys) the result holds
 // exactly one entry per input entry, under the renamed key, with the SAME payload reference.
 //@ contract translateIndexedFields
-//@   props C14
+//@   props C14 C13
 //@   pure match
 //@   requires forall a string, b string :: { newKey(match, a), newKey(match, b) } a in fields && b in fields && a != b ==> newKey(match, a) != newKey(match, b)
 //@   ensures @nil: fields == nil ==> result0 == nil && !result1
@@ -163,8 +163,10 @@ package interceptor
 //@ extern pure s2scommon.IsInvalidUTF8Error
 //@ extern tryRepairInvalidUTF8InBlob@translateOneDataBlob(b)
 //@   assigns nothing
+//@ ghost common.DataBlob.visited bool
 //@ extern $visitor@translateOneDataBlob
-//@   assigns *
+//@   ensures blob.visited
+//@   assigns *, blob.visited
 
 // C17, history-blob path: a blob is never passed on silently undecoded. If no error is returned, the blob either
 // decoded with the standard serializer or the repair changed it (and the repaired events are re-encoded). Defect D13
@@ -172,6 +174,7 @@ package interceptor
 //@ contract translateOneDataBlob
 //@   props C17
 //@   ensures @never_silently_undecoded: (old(blob) != nil && old(len(blob.Data)) > 0 && retErr == nil) ==> (old(blobDecodeErr(blob)) == nil || changed)
+//@   ensures @every_blob_is_visited: (old(blob) != nil && old(len(blob.Data)) > 0 && retErr == nil) ==> old(blob).visited
 //@   ensures @match_needs_visit: !(old(blob) != nil && old(len(blob.Data)) > 0) ==> result == old(blob) && !matched && !changed && retErr == nil
 
 // The repair of a blob: a repaired batch is re-encoded (events are returned) only when something was repaired.
@@ -225,3 +228,27 @@ package interceptor
 //@   ensures @skip_only_where_handled: result0 == visit.Skip ==>
 //@        (vwp.Value.Kind() == reflect.Ptr && vwp.Value.IsNil()) || res1(getParentFieldType(vwp)) == visit.Skip
 //@   ensures @container_translated_once: typeis(vwp.Value.Interface(), "*common.SearchAttributes") && result0 == visit.Continue ==> !searchAttributeFieldNames["IndexedFields"]
+
+// C14: the search-attribute visitor always walks the object it is given (there is no shortcut: every event type
+// can carry a search-attribute container).
+//@ ufunc walkErr(obj any) error
+//@ extern visit.Values@visitSearchAttributes(obj, f)
+//@   trusted package visit: the reflective walk
+//@   ensures result == walkErr(obj)
+//@   assigns *
+//@ contract visitSearchAttributes
+//@   props C14
+//@   ensures @always_walks: result1 == walkErr(obj)
+
+// C17 / C12: what translateOneDataBlob hands back - translated names or repaired bytes - is stored in the message.
+//@ ghost common.DataBlob.lastMatched bool
+//@ ghost common.DataBlob.lastChanged bool
+//@ extern translateOneDataBlob@visitDataBlobs(logger, match, visitor, b)
+//@   ensures b != nil ==> b.lastMatched == result1 && b.lastChanged == result2
+//@   ensures result3 == nil ==> result0 != nil || b == nil
+//@   assigns *, b.lastMatched, b.lastChanged
+//@ contract visitDataBlobs
+//@   props C17 C13
+//@   counts Assign
+//@   ensures @result_stored: result1 == nil && typeis(vwp.Value.Interface(), "*common.DataBlob") && cast(vwp.Value.Interface(), "*common.DataBlob") != nil &&
+//@        (cast(vwp.Value.Interface(), "*common.DataBlob").lastMatched || cast(vwp.Value.Interface(), "*common.DataBlob").lastChanged) ==> calls(Assign) == 1
